@@ -1,7 +1,9 @@
 (** Correspondence evaluator for C18.
     kind 0: dates      (0 s1 s2 out1 out2 inst1 inst2)
     kind 1: bootstrap  (1 nu de conf N seed stream pub ratios hooksum again)
-    kind 2: series     (2 results (wa wb wc wd) runs)
+    kind 2: series     (2 results (wa wb wc wd wa') runs conf N (refs-replace refs-combine))
+                       run = (how order out sums); sums = (0 ((summary ...) ...)) | (2)
+                       refs-x = per series, per cell: (seed stream alone)
     kind 3: several cells, one AddSummaries call (3 conf N cells)                          *)
 From Perf Require Import Base.Bytes Base.Sx Base.B64 Base.SxF Base.Usort
      Model.Dates Model.Bootstrap Model.BootstrapSpec Model.Series Model.SeriesSpec.
@@ -168,12 +170,42 @@ Definition as_outS (s : sx) : option outcomeS :=
   | _ => None
   end.
 
-Record srun := mkRun { ru_combine : bool; ru_order : list nat; ru_out : outcomeS }.
-Definition as_run (s : sx) : option srun :=
+(** summaries of all cells of all series of one run (AddSummaries on every
+    series), in the order of the cells; [None] = AddSummaries panicked *)
+Definition as_sums (s : sx) : option (option (list (list outcome3))) :=
   match s with
-  | SL [h; ord; o] => do h <- as_bool h; do ord <- as_list as_nat ord; do o <- as_outS o; Some (mkRun h ord o)
+  | SL [SZ 0; l] => do l <- as_list (as_list as_out3) l; Some (Some l)
+  | SL [SZ 2] => Some None
   | _ => None
   end.
+
+Record srun := mkRun { ru_combine : bool; ru_order : list nat; ru_out : outcomeS;
+                       ru_sums : option (list (list outcome3)) }.
+Definition as_run (s : sx) : option srun :=
+  match s with
+  | SL [h; ord; o; sm] =>
+      do h <- as_bool h; do ord <- as_list as_nat ord; do o <- as_outS o; do sm <- as_sums sm;
+      Some (mkRun h ord o sm)
+  | _ => None
+  end.
+
+(** per cell of the series of a policy: bootstrap seed and math/rand stream of
+    the cell's (sorted) samples, and the summary the real code gives for the
+    same multiset of measurements added as ONE experiment *)
+Record cref := mkRef { cr_seed : Z; cr_stream : list Z; cr_alone : outcome3 }.
+Definition as_cref (s : sx) : option cref :=
+  match s with
+  | SL [SZ seed; stream; alone] =>
+      do stream <- as_list as_z stream; do alone <- as_out3 alone; Some (mkRef seed stream alone)
+  | _ => None
+  end.
+Definition refs := (list (list cref) * list (list cref))%type.
+Definition as_refs (s : sx) : option refs :=
+  match s with
+  | SL [a; b] => do a <- as_list (as_list as_cref) a; do b <- as_list (as_list as_cref) b; Some (a, b)
+  | _ => None
+  end.
+Definition refs_of (combine : bool) (rf : refs) : list (list cref) := if combine then snd rf else fst rf.
 
 (** equality of observables *)
 Definition zlist_eqb := list_eqb Z.eqb.
@@ -189,8 +221,24 @@ Definition axes_eqb (a b : series) : bool :=
 Definition series_eqb (a b : series) : bool :=
   axes_eqb a b && list_eqb hp_eqb (se_hp a) (se_hp b) && list_eqb ocell_eqb (se_cells a) (se_cells b).
 
+(** the observable: the sample order of a denominator-less cell (which the
+    code leaves unsorted) is not part of it; the samples of every other cell are
+    compared AS RETURNED (the specification gives them sorted) *)
+Definition canon_cell_w (c : ocell) : ocell :=
+  match oc_den c with [] => canon_cell c | _ => c end.
+Definition canon_series_w (s : series) : series :=
+  mkSeries (se_unit s) (se_benchmarks s) (se_series s) (se_hp s) (map canon_cell_w (se_cells s)).
 Definition outS_canon (o : outcomeS) : outcomeS :=
-  match o with OSok l => OSok (map canon_series l) | _ => o end.
+  match o with OSok l => OSok (map canon_series_w l) | _ => o end.
+
+(** the final pass: both samples of a cell that has a denominator are sorted *)
+Definition cell_sorted (c : ocell) : bool :=
+  match oc_den c with
+  | [] => true
+  | _ => zlist_eqb (vsort (oc_num c)) (oc_num c) && zlist_eqb (vsort (oc_den c)) (oc_den c)
+  end.
+Definition raw_sorted (o : outcomeS) : bool :=
+  match o with OSok l => forallb (fun s => forallb cell_sorted (se_cells s)) l | _ => true end.
 
 Definition outS_eqb (full : bool) (a b : outcomeS) : bool :=
   match a, b with
@@ -222,20 +270,67 @@ Definition permute (rs : list res) (ord : list nat) : list res :=
 
 Definition not_panic (o : outcomeS) : bool := match o with OSpanic => false | _ => true end.
 
-Definition series_corr (rs : list res) (flags : list bool) (runs : list srun) : bool :=
-  let wf := wf_a rs && wf_b rs && wf_c rs && wf_d rs in
-  list_eqb Bool.eqb flags [wf_a rs; wf_b rs; wf_c rs; wf_d rs]
-  && forallb (fun r => outS_eqb wf (model_out (ru_combine r) (permute rs (ru_order r)))
-                                (outS_canon (ru_out r))) runs.
+(** the gate: [wf_a_norm] (Model/SeriesSpec.v: a numerator hash has one series
+    INSTANT, its stamp may be spelled in several ways) in place of [wf_a];
+    Proofs/SeriesSpelling.v: sound for WFset_norm, under which the model meets
+    [spec_series] and is add-order independent *)
+Definition wf_all (rs : list res) : bool := wf_a_norm rs && wf_b rs && wf_c rs && wf_d rs.
 
-Definition series_prop (rs : list res) (runs : list srun) : bool :=
-  let wf := wf_a rs && wf_b rs && wf_c rs && wf_d rs in
-  forallb (fun r => not_panic (ru_out r)) runs
+(** the model's summary of a cell: seed from the samples in order, replayed stream *)
+Definition cell_ref_corr (conf : b64) (n : nat) (c : ocell) (rf : cref) : bool :=
+  match oc_den c with
+  | [] => match cr_alone rf with O3undef => true | _ => false end
+  | _ =>
+      Z.eqb (bootstrap_seed (oc_num c) (oc_den c)) (cr_seed rf)
+      && match ratio (map b64_of_bits (oc_num c)) (map b64_of_bits (oc_den c)) conf n (cr_stream rf) with
+         | Some (_, summ) => out3_matches summ (cr_alone rf)
+         | None => false
+         end
+  end.
+
+Fixpoint forall2b {A B} (f : A -> B -> bool) (l : list A) (l' : list B) : bool :=
+  match l, l' with
+  | [], [] => true
+  | x :: l, y :: l' => f x y && forall2b f l l'
+  | _, _ => false
+  end.
+
+Definition refs_corr (conf : b64) (n : nat) (rs : list res) (combine : bool) (rf : list (list cref)) : bool :=
+  match model_out combine rs with
+  | OSok l => forall2b (fun s row => forall2b (cell_ref_corr conf n) (se_cells s) row) l rf
+  | _ => match rf with [] => true | _ => false end
+  end.
+
+Definition series_corr (rs : list res) (flags : list bool) (runs : list srun)
+           (conf : b64) (n : nat) (rf : refs) : bool :=
+  let wf := wf_all rs in
+  list_eqb Bool.eqb flags [wf_a rs; wf_b rs; wf_c rs; wf_d rs; wf_a_norm rs]
+  && forallb (fun r => outS_eqb wf (model_out (ru_combine r) (permute rs (ru_order r)))
+                                (outS_canon (ru_out r))) runs
+  && (if wf then refs_corr conf n rs false (fst rf) && refs_corr conf n rs true (snd rf) else true).
+
+Definition sums_no_panic (r : srun) : bool := match ru_sums r with Some _ => true | None => false end.
+
+(** the summaries of a run are, cell by cell, the summaries of the same
+    multisets of measurements obtained from one experiment - hence the same for
+    every add order *)
+Definition sums_ok (rf : refs) (r : srun) : bool :=
+  match ru_out r, ru_sums r with
+  | OSok _, Some ss => list_eqb (list_eqb out3_same) ss (map (map cr_alone) (refs_of (ru_combine r) rf))
+  | OSok _, None => false
+  | _, _ => true
+  end.
+
+Definition series_prop (rs : list res) (runs : list srun) (rf : refs) : bool :=
+  let wf := wf_all rs in
+  forallb (fun r => not_panic (ru_out r) && sums_no_panic r) runs
+  && forallb (fun r => raw_sorted (ru_out r)) runs
   && (if wf then
         forallb (fun r => outS_eqb true (spec_seriesS (ru_combine r) rs) (outS_canon (ru_out r))) runs
         && forallb (fun r => forallb (fun r' =>
               negb (Bool.eqb (ru_combine r) (ru_combine r'))
               || outS_eqb true (outS_canon (ru_out r)) (outS_canon (ru_out r'))) runs) runs
+        && forallb (sums_ok rf) runs
       else true).
 
 (** * dispatch on the case kind *)
@@ -261,10 +356,11 @@ Definition run_case (s : sx) : N :=
           code_of (forallb (mcell_corr (b64_of_bits conf) n) cells) (forallb mcell_prop cells)
       | _, _ => code_undecodable
       end
-  | SL [SZ 2; rs; flags; runs] =>
-      match as_list as_res rs, as_list as_bool flags, as_list as_run runs with
-      | Some rs, Some flags, Some runs => code_of (series_corr rs flags runs) (series_prop rs runs)
-      | _, _, _ => code_undecodable
+  | SL [SZ 2; rs; flags; runs; SZ conf; n; rf] =>
+      match as_list as_res rs, as_list as_bool flags, as_list as_run runs, as_nat n, as_refs rf with
+      | Some rs, Some flags, Some runs, Some n, Some rf =>
+          code_of (series_corr rs flags runs (b64_of_bits conf) n rf) (series_prop rs runs rf)
+      | _, _, _, _, _ => code_undecodable
       end
   | _ => code_undecodable
   end.
